@@ -53,6 +53,7 @@ type Contract struct {
 	rawMods  []rawMod
 	Use      map[string]map[string]bool  // callee → the callee's ensures clauses assumed at call sites (default: all)
 	Asserts  map[string][]*Clause        // cut points: "before <callee>#<n>" → clauses checked, then assumed
+	Inline   map[string]bool             // callees executed from their bodies instead of their contracts
 	Witness  map[string]map[string]SExpr // clause name → existential variable → witness term (tried at return sites)
 }
 
@@ -134,8 +135,71 @@ func loadEngine(dir string, overlay map[string][]byte) (*Engine, error) {
 	e.u = newUniverse(pkgs[0].Types)
 	e.collectFuncs()
 	e.registerTags()
+	e.registerHeapKeys()
 	e.parseContracts()
 	return e, nil
+}
+
+// registerHeapKeys makes the set of per-type heaps and map arrays complete
+// before any function is executed: "modifies all" havocs every heap that has a
+// key, so a heap first touched after such a call must already be known (else it
+// would wrongly start from its entry value).
+func (e *Engine) registerHeapKeys() {
+	seen := map[string]bool{}
+	var walk func(t types.Type)
+	walk = func(t types.Type) {
+		if t == nil {
+			return
+		}
+		k := typeStr(t)
+		if seen[k] {
+			return
+		}
+		seen[k] = true
+		if isTime(t) || opaqueStruct(t) {
+			return
+		}
+		switch tt := types.Unalias(t).Underlying().(type) {
+		case *types.Pointer:
+			e.u.heapKey(tt.Elem())
+			walk(tt.Elem())
+		case *types.Slice:
+			e.u.heapKey(tt.Elem())
+			walk(tt.Elem())
+		case *types.Array:
+			walk(tt.Elem())
+		case *types.Map:
+			e.u.mapKey(tt)
+			walk(tt.Key())
+			walk(tt.Elem())
+		case *types.Struct:
+			for i := 0; i < tt.NumFields(); i++ {
+				walk(tt.Field(i).Type())
+			}
+		case *types.Tuple:
+			for i := 0; i < tt.Len(); i++ {
+				walk(tt.At(i).Type())
+			}
+		case *types.Signature:
+			walk(tt.Params())
+			walk(tt.Results())
+		}
+	}
+	for _, f := range sortedFuncs(e.funcs) {
+		if f.Pkg != e.spkg && !(f.Pkg == nil && f.Parent() != nil) {
+			continue
+		}
+		for _, p := range f.Params {
+			walk(p.Type())
+		}
+		for _, b := range f.Blocks {
+			for _, in := range b.Instrs {
+				if v, ok := in.(ssa.Value); ok {
+					walk(v.Type())
+				}
+			}
+		}
+	}
 }
 
 func (e *Engine) collectFuncs() {
@@ -533,6 +597,18 @@ func (e *Engine) parseContracts() {
 			}
 			for _, n := range strings.Fields(rest[i+1:]) {
 				cur.Use[cal][n] = true
+			}
+		case "inline":
+			// inline <callee> ...: the body is executed in place of the contract
+			if cur == nil {
+				perr(l, "inline outside a contract")
+				continue
+			}
+			if cur.Inline == nil {
+				cur.Inline = map[string]bool{}
+			}
+			for _, n := range strings.Fields(rest) {
+				cur.Inline[n] = true
 			}
 		case "assert":
 			// assert before <callee>#<n> <name>: <expr>
